@@ -2,7 +2,7 @@
    edit/commit/reload history.  The abstraction of a table is the list
    t_iter t (what iteration yields); Inv is the representation invariant. *)
 From Coq Require Import List ZArith Bool.
-From PyD Require Import Base.Str Base.PySlice Model.TsdbFiles Model.Table Proofs.TableP.
+From PyD Require Import Base.Str Base.PySlice Model.TsdbFiles Model.Table Proofs.TableP Proofs.TableP2.
 Import ListNotations.
 
 Theorem C10_open : forall f, Inv (open_table f) /\ t_iter (open_table f) = content f.
@@ -48,3 +48,50 @@ Theorem C10_reload : forall t, Inv t ->
   t_file (t_reload t) = t_file t.
 Proof. exact reload_spec. Qed.
 Print Assumptions C10_reload.
+
+(* slices with any step read the plain list *)
+Theorem C10_slice : forall t s, Inv t -> t_slice t s = py_slice (t_iter t) s.
+Proof. exact slice_refines. Qed.
+Print Assumptions C10_slice.
+
+(* slice assignment (growing, shrinking, extended) is list slice assignment;
+   a rejected one (ValueError) leaves the list unchanged *)
+Theorem C10_setslice : forall t s vals, Inv t ->
+  match t_setslice t s vals with
+  | SOk t' => Inv t' /\ abs_setslice (t_iter t) s vals = Some (t_iter t') /\ t_file t' = t_file t
+  | SValueError t' => Inv t' /\ abs_setslice (t_iter t) s vals = None /\ t_iter t' = t_iter t /\ t_file t' = t_file t
+  | SIndexError => False
+  end.
+Proof. exact setslice_spec. Qed.
+Print Assumptions C10_setslice.
+
+Theorem C10_setitem : forall t i v, Inv t ->
+  match py_index (length (t_iter t)) i with
+  | Some k => exists t', t_setitem t i v = SOk t' /\ Inv t' /\ t_iter t' = set_nth (t_iter t) k v /\
+                         t_file t' = t_file t
+  | None => t_setitem t i v = SIndexError
+  end.
+Proof. exact setitem_spec. Qed.
+Print Assumptions C10_setitem.
+
+Theorem C10_update : forall t i k v, Inv t ->
+  match py_getitem (t_iter t) i, py_index (length (t_iter t)) i with
+  | Some r, Some j => exists t', t_update t i k v = SOk t' /\ Inv t' /\
+                        t_iter t' = set_nth (t_iter t) j (set_nth r k v) /\ t_file t' = t_file t
+  | _, _ => t_update t i k v = SIndexError
+  end.
+Proof. exact update_spec. Qed.
+Print Assumptions C10_update.
+
+(* every history of extends, item/slice assignments, updates, clears,
+   commits, reloads and re-openings, from any stored relation (plain or
+   compressed), keeps the invariant and reads as the plain list the history
+   describes; view t = (rows iterated, rows stored) *)
+Theorem C10_history : forall f ops,
+  let t := fold_left t_step ops (open_table f) in
+  Inv t /\ view t = fold_left a_step ops (content f, content f) /\
+  t_len t = length (fst (view t)) /\
+  (forall i, t_getitem t i = match py_getitem (fst (view t)) i with Some x => GOk x | None => GIndexError end) /\
+  (forall s, t_slice t s = py_slice (fst (view t)) s).
+Proof. exact history_from_open. Qed.
+Print Assumptions C10_history.
